@@ -42,7 +42,12 @@ def renderNode (env : Env) (s : State) (n : Nat) : String :=
   let b (x : Bool) : String := if x then "1" else "0"
   let par := joinWith "," (nd.parents.map fun pc => s!"{pc.1}:{pc.2}")
   let v := match s.value env n with | some v => v.render | none => "-"
-  s!"n{n} {nd.kind.tag} h={nd.height} rch={nd.heightInRch} r={nd.recomputedAt} c={nd.changedAt} valid={b nd.valid} nec={b nd.isNecessary} val={v} par=[{par}] nh={nd.numOnUpdateHandlers} obs={nd.observers.length}"
+  let ex := match nd.kind with
+    | .expert e => match s.experts[e]? with
+      | some er => s!" x=[fs={b er.forceStale} inv={er.numInvalidChildren} all={b er.willFireAllCallbacks} edges={er.children.length}]"
+      | none => ""
+    | _ => ""
+  s!"n{n} {nd.kind.tag} h={nd.height} rch={nd.heightInRch} r={nd.recomputedAt} c={nd.changedAt} valid={b nd.valid} nec={b nd.isNecessary} val={v} par=[{par}] nh={nd.numOnUpdateHandlers} obs={nd.observers.length}{ex}"
 
 def renderHeap (s : State) : String :=
   let buckets := (s.rch.queues.toList.zipIdx.filter fun (q, _) => !q.isEmpty).map fun (q, h) =>
@@ -119,6 +124,11 @@ def stepAction (env : Env) (a : Action) (tokens : Array Nat) : M (String × Arra
       modVar v fun x => { x with handles := x.handles - 1 }
       if vc.handles == 1 then modify fun s => { s with deadVars := s.deadVars ++ [v] }
       pure ("ok", tokens)
+  | .addDep e c cb => do
+    let n ← resolveOpnd [] e
+    let c ← resolveOpnd [] c
+    let dep ← expertAddDependency env fuelDefault n c cb
+    pure (s!"ok d{dep}", tokens)
   | .stabilise => do stabilise env fuelDefault; pure ("ok", tokens)
   | .isStable => do pure (s!"ok {(← get).isStable}", tokens)
   | .stats => pure ("ok", tokens)
